@@ -97,6 +97,19 @@ impl Stream for SvcStream {
             Poll::Ready(Some((idx, cont))) => Poll::Ready(Some(Reply::new(Some(Item { cid, seq, idx })).set_continues(cont))),
         }
     }
+
+    /// Truthful bounds when the world says so (per-run knob): the number of items still to come
+    /// is known to the service even though none of them may be ready yet.
+    fn size_hint(&self) -> (usize, Option<usize>) {
+        let w = self.inner.world.borrow();
+        let st = &w.streams[self.inner.id];
+        let left = st.script.len() + st.available.len();
+        match w.stream_size_hint {
+            0 => (0, None),
+            1 => (left, if st.ends { Some(left) } else { None }),
+            _ => (left.min(1), None),
+        }
+    }
 }
 
 pub fn flag_of(b: u8) -> Option<bool> {
@@ -179,13 +192,16 @@ pub enum CallSpec {
     Fail { oneway: bool },
     Slow { polls: u32, oneway: bool },
     Stream { flags: Vec<u8>, ends: bool },
+    /// A call *without* the `more` flag that the service nevertheless answers through a reply
+    /// stream of exactly one item (the deferred-answer pattern of `notified::Once`).
+    Deferred { flag: u8 },
 }
 
 impl CallSpec {
     pub fn oneway(&self) -> bool {
         match self {
             CallSpec::Echo { oneway, .. } | CallSpec::Fail { oneway } | CallSpec::Slow { oneway, .. } | CallSpec::Len { oneway, .. } => *oneway,
-            CallSpec::Stream { .. } => false,
+            CallSpec::Stream { .. } | CallSpec::Deferred { .. } => false,
         }
     }
 }
@@ -242,6 +258,7 @@ pub fn call_frame(cid: u32, seq: u32, c: &CallSpec) -> Vec<u8> {
         CallSpec::Fail { .. } => json!({"method": "org.example.Fail", "parameters": {"cid": cid, "seq": seq}}),
         CallSpec::Slow { polls, .. } => json!({"method": "org.example.Slow", "parameters": {"cid": cid, "seq": seq, "polls": polls}}),
         CallSpec::Stream { flags, ends } => json!({"method": "org.example.Stream", "parameters": {"cid": cid, "seq": seq, "flags": flags, "ends": ends}, "more": true}),
+        CallSpec::Deferred { flag } => json!({"method": "org.example.Stream", "parameters": {"cid": cid, "seq": seq, "flags": [flag], "ends": true}}),
     };
     if c.oneway() {
         v["oneway"] = json!(true);
@@ -267,6 +284,13 @@ pub fn reference_output(cid: u32, calls: &[CallSpec]) -> (Vec<Value>, Vec<usize>
             CallSpec::Echo { pad, .. } => out.push(json!({"parameters": {"cid": cid, "seq": seq, "pad": padstr(*pad, cid * 7 + seq)}, "continues": false})),
             CallSpec::Slow { .. } => out.push(json!({"parameters": {"cid": cid, "seq": seq, "pad": "slow"}, "continues": false})),
             CallSpec::Fail { .. } => out.push(json!({"error": "org.example.Failed", "parameters": {"cid": cid, "seq": seq}})),
+            CallSpec::Deferred { flag } => {
+                let mut v = json!({"parameters": {"cid": cid, "seq": seq, "idx": 0}});
+                if let Some(c) = flag_of(*flag) {
+                    v["continues"] = json!(c);
+                }
+                out.push(v);
+            }
             CallSpec::Stream { flags, ends } => {
                 for (i, f) in flags.iter().enumerate() {
                     let mut v = json!({"parameters": {"cid": cid, "seq": seq, "idx": i}});
@@ -504,11 +528,12 @@ pub fn cid_of(v: &Value) -> Option<u64> {
 
 pub fn gen_call(t: &mut Tape, allow_stream: bool, allow_oneway: bool) -> CallSpec {
     let oneway = allow_oneway && t.draw(4) == 3;
-    let kinds = if allow_stream { 5 } else { 4 };
+    let kinds = if allow_stream { 6 } else { 4 };
     match t.draw(kinds) {
         0 | 1 => CallSpec::Echo { pad: [0, 3, 40, 230, 300][t.draw(5)], oneway },
         2 => CallSpec::Fail { oneway },
         3 => CallSpec::Slow { polls: t.draw(4) as u32, oneway },
+        5 => CallSpec::Deferred { flag: t.draw(3) as u8 },
         _ => {
             let n = t.draw(5);
             let flags = (0..n).map(|_| t.draw(3) as u8).collect();
